@@ -80,6 +80,22 @@ def chunks(s):
     return out
 
 
+def split_comment(s, target):
+    """(code part, trailing comment or None): the comment starts at the first '!' (Fortran) / '#' (Python)
+    outside a quoted string."""
+    start = "#" if target == "python" else "!"
+    q = None
+    for i, c in enumerate(s):
+        if q is not None:
+            if c == q:
+                q = None
+        elif c in "'\"":
+            q = c
+        elif c == start:
+            return s[:i], s[i:]
+    return s, None
+
+
 # ---------------------------------------------------------------- oracle
 
 def wrap(case):
@@ -100,16 +116,28 @@ def check_case(case):
     if not isinstance(lines, list) or not lines:
         return "wrap_line returned %r" % (lines,)
     ind = case["level"] * len(case["indentation"])
-    want = lang_tokens(line)
+    code_in, comment_in = split_comment(line, case["target"])
+    want = lang_tokens(code_in)
     got = []
+    comments = []
     for k, ln in enumerate(lines):
         last = k == len(lines) - 1
-        body = ln
+        try:
+            code, comment = split_comment(ln, case["target"])
+        except Exception:
+            code, comment = ln, None
+        if comment is not None:
+            comments.append(comment)
+        body = code.rstrip(" ")
         if not last:
             if not ln.endswith(marker):
                 return "non-final line %d does not end in the continuation marker: %r" % (k, ln)
-            body = ln[:-1].rstrip(" ")
-        if not body.strip():
+            if not body.endswith(marker):
+                # free-form rules: a '&' (Python: a backslash) inside a comment belongs to the comment, so the
+                # statement ends here and the next physical line is read as a new statement
+                return "the continuation marker of line %d is inside a comment: %r" % (k, ln)
+            body = body[:-1].rstrip(" ")
+        if not (body.strip() or comment):
             return "output line %d is empty: %r" % (k, ln)
         try:
             toks = lang_tokens(body)
@@ -121,6 +149,8 @@ def check_case(case):
                     % (k, len(chunks(body)), ind, len(ln), case["width"], ln))
     if got != want:
         return "token sequence changed: %r -> %r" % (want, got)
+    if " ".join(" ".join(comments).split()) != " ".join((comment_in or "").split()):
+        return "trailing comment changed: %r -> %r" % (comment_in, comments)
     if case.get("python_stmt"):
         joined = "\n".join(lines)
         try:
@@ -137,7 +167,7 @@ def check_case(case):
 
 
 def sig_of(msg):
-    for key in ("does not end", "is empty", "split across", "does not fit", "token sequence", "raised",
+    for key in ("does not end", "inside a comment", "trailing comment changed", "is empty", "split across", "does not fit", "token sequence", "raised",
                 "no longer parses", "different syntax tree", "returned"):
         if key in msg:
             return key
@@ -239,13 +269,27 @@ def line_cases(glued_strings):
     seps = st.sampled_from([" ", " ", " ", "  ", "   "])
     line = toks.flatmap(lambda ts: st.lists(seps, min_size=len(ts), max_size=len(ts)).map(
         lambda ss: "".join(t + s for t, s in zip(ts, ss)).rstrip(" ")))
-    return st.fixed_dictionaries(dict(
+    base = st.fixed_dictionaries(dict(
         line=line,
         level=st.integers(0, 6),
         width=st.one_of(st.integers(8, 132), st.integers(20, 60), st.just(80)),
         indentation=st.sampled_from(["    ", "    ", " ", "  "]),
         target=st.sampled_from(["python", "fortran"]),
+        comment=st.one_of(st.none(), st.none(), st.none(),
+                          st.lists(st.sampled_from(WORDS[:9] + ["it's", "&", "(see", "above)"]), min_size=1, max_size=12)),
     ))
+
+    def finish(c):
+        # the generated tokens contain no comment character outside strings; a trailing comment is appended
+        c = dict(c)
+        words = c.pop("comment")
+        mark = "#" if c["target"] == "python" else "!"
+        if any(split_comment(t, c["target"])[1] is not None for t in [c["line"]]):
+            return c
+        if words is not None:
+            c["line"] = c["line"] + "  " + mark + " " + " ".join(words)
+        return c
+    return base.map(finish)
 
 
 def python_stmt_cases(glued_strings):
